@@ -1,5 +1,5 @@
 SPECIFICATION GenSpec
 CONSTANTS KindSet = {"axis", "line", "text", "graph", "world"} MaxOps = 3
-VIEW Skel
+VIEW Skel3
 ACTION_CONSTRAINT Emit
 CHECK_DEADLOCK FALSE
